@@ -29,7 +29,8 @@ CLAIMS = {
              'decision). var_int_len tables / var_int_len_from_size / write_variable_length agree at all 1..4-byte boundaries. Both codecs pass encoded_size of the same packet as size, '
              'compare it with the limit first and fail with OverMaxPacketSize before any write; the limit only reaches reduce_limit and the diagnostics sizers, whose budget is the limit '
              'minus everything else; subtractions involving the limit are guarded. Under NO_PROBLEM_INFO only reason_string/user properties are cleared, for all six acknowledgement types, '
-             'and the flag is !CONNECT.request_problem_info. Builder size() functions use the codec size functions. failed-encode-appends-nothing = C08.validate-before-write instances.',
+             'and the flag is !CONNECT.request_problem_info. Builder size() functions use the codec size functions. failed-encode-appends-nothing = C08.validate-before-write instances.'
+             ' Flag stores of the v5 codec other than the CONNECT decoder only insert/remove single named flags on the value read (NO_PROBLEM_INFO survives the capability setters).',
         note='Not decided: equality of written bytes and size for concrete values beyond what the symbolic forms imply (the atoms abstract string contents), overflow of usize sums of '
              'in-memory lengths, behaviour of dependencies (BytePages). Known findings D8 (error after partial write) and D23 (limits 1..=5 keep no header allowance).',
         ref='DESIGN.md section 5 C09'),
@@ -42,7 +43,8 @@ CLAIMS = {
              'one outcome, no panic, piece == bytes consumed <= min(buffered, owed) (no byte of the next packet), eof/FrameHeader exactly when nothing remains else PublishPayload(owed - piece), '
              'no non-final non-empty piece below the minimum, a piece whenever the rest is buffered, no empty chunk, announced size = Remaining Length, declared payload = Remaining Length - header. '
              'In all four dispatchers the chunk reaches feed_data unmodified, feed_eof exactly on the eof edge, sender restored exactly otherwise, no suspension point between take and feed; '
-             'Publish arms stream exactly when announced size != first piece and install the sender before their first await.',
+             'Publish arms stream exactly when announced size != first piece and install the sender before their first await.'
+             ' Payload::read_all returns Ok only after an awaited read() reported the end of the stream.',
         note='Not decided: the item sequence for every cut set of a concrete byte stream and every reader pace (needs execution), the Payload/PlSender buffering itself (dependency-free but '
              'value-level), fragmentation independence of non-PUBLISH packets beyond the need-more-data discipline above.',
         ref='DESIGN.md section 5 C10'),
@@ -91,7 +93,8 @@ CLAIMS = {
         text='Every return path of the four publish_fn coroutines is enumerated from MIR with its branch conditions: an ack is built only where the handler future completed '
              'with Ok (v5 server: or try_ack mapped the error), PUBREC iff the QoS-2 test was true, PUBACK iff false, nothing without an id, a failing handler ends in Err; '
              'the handler is invoked at one site outside any loop; PUBCOMP is constructed only in the PUBREL answer paths; dispatcher bodies write to the wire only through '
-             'their return value or the enumerated duplicate-id negative acks; the decoded PUBLISH reaches the handler unmodified (v5: alias resolution of topic only).',
+             'their return value or the enumerated duplicate-id negative acks; the decoded PUBLISH reaches the handler unmodified (v5: alias resolution of topic only).'
+             ' Acknowledgements for a PUBLISH are built only in publish_fn (after the handler) or as the reviewed v5 duplicate-id negative ack / the control service\'s PublishAck answer; a handler error converted with try_ack must write that negative acknowledgement.',
         note='Not decided: exactly-once across schedules (reduced to one future per request + one handler call per future + C04 queueing), payload byte equality (C10). '
              'Known finding D18 (client role acknowledges QoS 2 with PUBACK) is listed in known_findings.json.',
         ref='DESIGN.md section 5 C03'),
@@ -102,7 +105,8 @@ CLAIMS = {
              'late states never call the control service and only move forward; failure sources map to the right Control constructor (11 sites, table by enum variant); the '
              'stopping condition is notified only in Shutdown, which is entered only on the Ready edge of the control future; every dispatcher shutdown and every '
              'Control::Stop arm reaches clear_queues/drop_payload on all paths; clear_queues clears waiters and in-flight entries; Stop always holds Some(fut); handle_timeout has '
-             'no unchecked arithmetic.',
+             'no unchecked arithmetic.'
+             ' shutdown() fails the very payload slot the PayloadChunk arm feeds.',
         note='Not decided: that futures actually resolve and the task completes (liveness), byte-offset fault sequences. queue[idx] is assumed (C04 runtime-integer invariant).',
         ref='DESIGN.md section 5 C07'),
     'C15': dict(
@@ -122,7 +126,8 @@ CLAIMS = {
              'relying on the codec refusing packets while a payload is owed (that codec guard is itself checked by edge dominance in both Codec::encodev); Encoded::Publish / '
              'PayloadChunk are constructed only in shared.rs; in the call graph of both encodev functions no function can fail after its own write and no failing function is '
              'entered after a caller wrote (fixpoint over may-write / may-fail summaries); stream accounting: over-delivery force-closes without writing, the counter is '
-             'decreased by the written length, a dropped unfinished stream always aborts, the codec refuses chunks beyond what is owed.',
+             'decreased by the written length, a dropped unfinished stream always aborts, the codec refuses chunks beyond what is owed.'
+             ' A streamed PUBLISH header is written only on the is_canceled()==false edge of the stream handle with no suspension point in between; an error source is discharged when every caller reports the same error before its first write or only ever passes constants.',
         note='Not decided: the parse of the actual byte stream. Known findings D8 (validation after write, 7 keys) are listed in known_findings.json. Assumes IoRef::encode '
              'calls Encoder::encodev of the given codec and has no rollback.',
         ref='DESIGN.md section 5 C08'),
@@ -150,7 +155,8 @@ CLAIMS = {
         text='Only the three wait_* functions and the PUBREC re-queue extend the outstanding queue; every sink path to an enqueue is dominated (up to three caller levels) by '
              'wait_readiness()/is_ready(); for each awaiting send path the rule looks for an await of the parked waiter between the readiness decision and the enqueue and '
              'accepts it only if the window is re-evaluated afterwards or the wakers update a field the predicate reads (reservation); the argument of set_cap derives from '
-             'the negotiated fields (v5 server: cmp::min of max_send and the peer Receive Maximum).',
+             'the negotiated fields (v5 server: cmp::min of max_send and the peer Receive Maximum).'
+             ' Entries leave the outstanding queue only in pkt_ack_inner, cancel_response and clear_queues; the number of senders released when back-pressure lifts is bounded by the free slots.',
         note='Not decided: the count at every instant for every interleaving. The check-then-act rule fails on all ten awaiting send paths (known finding D20, one key per API).',
         ref='DESIGN.md section 5 C05'),
     'C13': dict(
@@ -177,7 +183,8 @@ CLAIMS = {
              'MQTT5->handlers.1 on all four invocation sites, detection = one peek + retrying recv under a deadline, VersionCodec level table {4,5} by value, rejects others, '
              'consumes nothing; each CONNECT decoder refuses the other level. Limits: each negotiated value (max QoS, receive maximum, topic alias maximum, inbound/outbound '
              'maximum packet size, send window, keep-alive and announced keep-alive) is traced from its source field to the setter/constructor that enforces it, and the '
-             'PUBLISH arms consult those values.',
+             'PUBLISH arms consult those values.'
+             ' v5 max_qos()/set_max_qos(): setter sequences and getter decision list extracted and evaluated for every previous flag state x value.',
         note='Not decided: behaviour for every fragmentation of the first 16 bytes (reduced to the no-consume and retrying-recv rules), the numeric 1.5 factor (only dependence on '
              'CONNECT.keep_alive), behaviour when each limit is probed. The client topic-alias literal (D12) is reported under C17.',
         ref='DESIGN.md section 5 C19'),
@@ -187,7 +194,8 @@ CLAIMS = {
              '(spec/topic_filter_dfa.json) by product construction over all strings (no length bound), incl. empty-string rejection and accept-at-end; SUBSCRIBE/UNSUBSCRIBE arms '
              'apply it to every filter and map false to Subs_4_7_1 without reaching a handler; the per-level tables of the string MatchLevel impl and of match_level_impl are '
              'extracted and compared with 4.7 over all (filter kind, topic kind, index==0, string equality) cases; match_topic\'s end-of-topic rule (only None or # succeed); '
-             'the filter-vs-filter relation is monotone w.r.t. the string relation over all kind combinations; every parameter of match_level_impl is used.',
+             'the filter-vs-filter relation is monotone w.r.t. the string relation over all kind combinations; every parameter of match_level_impl is used.'
+             ' TopicFilterLevel::is_valid refuses + and # inside every text-carrying level variant.',
         note='Not decided: agreement of the structural validator TopicFilter::is_valid / TryFrom<ByteString> with is_valid (iterator-combinator code, no finite table), Display '
              'round trip, unicode levels. A seeded change in that undecided part (C18-m2) is a documented miss.',
         ref='DESIGN.md section 5 C18'),
@@ -197,7 +205,8 @@ CLAIMS = {
              'only items taken from the queue front, every pop advances base by exactly one; on the non-head edge the result is parked at index response_idx - base or recorded '
              'as error and nothing is written; the inline fast path writes only when nothing is pending and the queue is empty; the only write in poll() is the control answer in '
              'the Stop arm; every place that keeps a pending handler future has exactly one Pending slot whose index is base + queue.len() read before the push; the spawned '
-             'task reports with the captured index; control messages are serialised (InFlightService(1) inside BufferService(16), constants by value).',
+             'task reports with the captured index; control messages are serialised (InFlightService(1) inside BufferService(16), constants by value).'
+             ' After the head slot was popped every return passes the drain loop\'s look at the next slot; dispatchers put responses on the wire only through their return value (C03.single-writer imported).',
         note='Not decided: the wrapping index arithmetic for all completion permutations (runtime integers: a model checker or exploration harness is the right tool); '
              'queue[idx] in-bounds is assumed.',
         ref='DESIGN.md section 5 C04'),
@@ -207,7 +216,8 @@ CLAIMS = {
              'KA_TIMEOUT|READ_TIMEOUT and the partial-frame count; handle_timeout reports KeepAliveTimeout only under KA_TIMEOUT and ReadTimeout only under READ_TIMEOUT, its '
              'arithmetic cannot underflow; keep-alive sources end in Control::proto and (v5) DISCONNECT 0x8D; the first handshake read is inside timeout_checked(connect_timeout), '
              'version detection under Deadline(protocol_version_timeout), client connect under timeout_checked(handshake_timeout); all ten client start* variants spawn the '
-             'keep-alive task iff keepalive is non-zero, with the configured period; the task pings inside its loop and can leave the loop only through the closed-sink edge.',
+             'keep-alive task iff keepalive is non-zero, with the configured period; the task pings inside its loop and can leave the loop only through the closed-sink edge.'
+             ' Starting the read-rate timer unconditionally re-arms its budget; stop_timer on the service-not-ready pause clears both timeout flags; every loop iteration with an open sink pings; the v3 idle-timeout expression derived from the keep-alive is extracted and evaluated (all 65536 values in the thorough tier): never shorter than 1.5x keep-alive (saturating), 0 only for 0.',
         note='Not decided - the property proper: every statement about WHEN timers fire ("live peers are never timed out", coarse-grid arrival patterns) quantifies over time and '
              'needs execution. Only the necessary wiring conditions above are claimed.',
         ref='DESIGN.md section 5 C20'),
